@@ -184,3 +184,30 @@ Example release_examples :
   RevokeSentinel_receive 0 5 6 0 0 true true 0 60 7 = Ok ([(7, 5, ZnnTokenStandard); (7, 6, QsrTokenStandard)], 0, 60, 0, 0, Some 1) /\
   RevokePillar_receive 0 15 0 0 0 true 7 7 0 true 0 60 0 = Ok ([(7, PillarStakeAmount, ZnnTokenStandard)], 0, 60, 0, Some 1).
 Proof. repeat split; reflexivity. Qed.
+
+(* ------------------------------------------------------------------ liquidity.CancelLiquidityStake *)
+Theorem cancel_liquidity_stake_payout rt amt v u g f exp now sv owner zts bl rt' amt' eff :
+  CancelLiquidityStake_receive rt amt v u g f exp now sv owner zts = Ok (bl, 0, rt', amt', eff) ->
+  bl = [(owner, amt, zts)] /\ exp <= now /\ v = 0 /\ g = 0 /\ rt' = now /\ amt' = 0 /\ eff = Some 1.
+Proof.
+  unfold CancelLiquidityStake_receive, Err_constants_ErrDataNonExistent, Err_constants_RevokeNotDue, Big0. cbv zeta. intros H.
+  split_ifs H; try discriminate; inversion H; subst; repeat split; try lia; reflexivity.
+Qed.
+
+Theorem cancel_liquidity_stake_refusal rt amt v u g f exp now sv owner zts bl e rt' amt' eff :
+  CancelLiquidityStake_receive rt amt v u g f exp now sv owner zts = Ok (bl, e, rt', amt', eff) -> e <> 0 ->
+  bl = [] /\ rt' = rt /\ amt' = amt /\ eff = None.
+Proof.
+  unfold CancelLiquidityStake_receive. cbv zeta. intros H He.
+  split_ifs H; try discriminate; inversion H; subst; try (exfalso; apply He; reflexivity); repeat split; reflexivity.
+Qed.
+
+Theorem cancel_liquidity_stake_twice rt amt v u g f exp now sv owner zts bl rt' amt' eff now2 sv2 bl2 e2 rt2 amt2 eff2 :
+  CancelLiquidityStake_receive rt amt v u g f exp now sv owner zts = Ok (bl, 0, rt', amt', eff) ->
+  CancelLiquidityStake_receive rt' amt' v u g f exp now2 sv2 owner zts = Ok (bl2, e2, rt2, amt2, eff2) ->
+  bl2 = [] \/ bl2 = [(owner, 0, zts)].
+Proof.
+  intros H1 H2. apply cancel_liquidity_stake_payout in H1. destruct H1 as (_ & _ & _ & _ & _ & -> & _).
+  unfold CancelLiquidityStake_receive in H2. cbv zeta in H2.
+  split_ifs H2; try discriminate; inversion H2; subst; auto.
+Qed.
